@@ -643,11 +643,14 @@ def world_gate_driver(tier):
     operation that still has callbacks to announce."""
     from props.worldlib import WorldDriver
     ids = (1,) if tier == 'quick' else (1, 2)
+    types = ('H', 'HY', 'HZ') if tier == 'quick' else ('H', 'HY')
+    shapes = (('H',), ('HY',), ('HY', 'H'), ('H', 'HY'))
+    if tier == 'quick':
+        shapes += (('HZ', 'H'),)
     return WorldDriver(
-        'world-gate', own='L', types=('H', 'HY', 'HZ'), ids=ids,
-        explicit_ids=(1,), max_autos=1 if tier == 'quick' else 2,
-        toggles=True, max_postponed=2,
-        shapes=(('H',), ('HY',), ('HY', 'H'), ('H', 'HY'), ('HZ', 'H')),
+        'world-gate', own='L', types=types, ids=ids,
+        explicit_ids=(1,), max_autos=1,
+        toggles=True, max_postponed=2, shapes=shapes,
         coarse=False, clear_op=False, process_op=tier != 'quick',
         delete_ops=tier != 'quick')
 
